@@ -7,6 +7,11 @@ _NOTE = ("Trusted: Coq 8.16.1 kernel + vm_compute; the Go harness (generators, p
          "differential evaluation on generated inputs, not by proof; ")
 
 TEXT = {
+    "C15": {
+        "level": "cty/json Marshal, Unmarshal and ImpliedType are modelled at the JSON token-tree level. Theorems: unknown, marked and infinite values are rejected; strings, booleans and nulls round-trip; at a dynamic position the encoder writes exactly the documented wrapper and the decoder reduces it to decoding against the recovered type. The integer-text loss is refuted by a kernel-computed witness (known finding). Every generated value x constraint and every grammar document is encoded/decoded by the implementation, compared token tree by token tree with the model, and the round-trip / mirror / implied-type clauses are evaluated on both sides.",
+        "note": _NOTE + "encoding/json's lexer is the byte-level mapping on both sides; two known findings (integer text, nested placeholders).",
+        "technique": "Coq proof over a token-level Gallina model of the JSON codec + model-side round-trip evaluation and correspondence by vm_compute",
+    },
     "C18": {
         "level": "Number decoding into every Go numeric type (per-width range checks, unsigned wholeness, float64 and float32 narrowing with subnormals and overflow, big.Int/big.Float) and re-encoding are modelled in Gallina on the bit-exact big.Float model. Theorems: an exact integer conversion yields that very number (all numbers), signed decoding succeeds only for whole in-range numbers and stores that number, every Go integer of every width round-trips. All boundary numbers x 14 targets are compared with the implementation; a reflect-based Go type family is round-tripped by the oracle.",
         "note": _NOTE + "structs / slices / maps / pointers: oracle only (partial).",
